@@ -96,7 +96,6 @@ Definition nonempty_list {A} (l : list A) : bool := match l with [] => false | _
 Definition pin_ok (p : pin) : bool :=
   name_ok (p_name p)
   && token (p_version p) && negb (last_ok is_cont (p_version p))
-  && negb (is_missing (p_version p))
   && spec_ok (w_pin_eq ++ p_version p)
   && (match pin_version (w_pin_eq ++ p_version p) with
       | Ok v => String.eqb v (p_version p) | Err _ => false end)
@@ -125,21 +124,46 @@ Definition annot_pin_ok (o : opts) (p : pin) : bool :=
 
 Definition names_sorted (v : view) : bool := sorted_by (fun p => lower (p_name p)) v.
 
+(* the format-independent part of wf *)
+Definition wf_view (o : opts) (v : view) : bool :=
+  opts_ok o && forallb pin_ok v && forallb (annot_pin_ok o) v && names_sorted v.
+
 (* multi-line output: every option combination *)
 Definition wf_multi (o : opts) (v : view) : bool :=
   o_multi o && opts_ok o && forallb pin_ok v && forallb (annot_pin_ok o) v && names_sorted v.
 
-(* one-line output: no URL may be written, and the loader's "starts with ' via'" test must
-   not fire on the first requirer (it does not when --annotate puts "[n]" first) *)
+(* one-line output.  The comment of a pin as the writer prints it after "# [n] ": requirers, then the URL. *)
+Definition one_line_comment (o : opts) (p : pin) : string :=
+  explanation false (p_via p) ++
+  match p_url p with Some u => if o_urls o then w_cmt_single ++ u else EmptyString | None => EmptyString end.
+Definition last_token (s : string) : string * string :=
+  match rpartition_char " "%char s with (h, _, t) => (h, t) end.
+(* - no requirer text contains the separator ", " or ends with one of its characters, no URL contains it;
+   - the last blank-separated token of the last requirer text is not taken for a URL;
+   - without --annotate the comment does not start with the word "via" (a requirer literally named `via`
+     followed by a specifier cannot be told from pip-compile's "# via x" layout) *)
 Definition single_pin_ok (o : opts) (p : pin) : bool :=
-  (match p_url p with Some _ => negb (o_urls o) | None => true end)
-  && forallb (fun x => negb (containsb l_src_sep (constraint_text x))
-                       && negb (last_ok (fun c => mem_ascii c l_src_sep) (constraint_text x))) (p_via p)
+  forallb (fun x => negb (containsb l_src_sep (constraint_text x))
+                    && negb (last_ok (fun c => mem_ascii c l_src_sep) (constraint_text x))) (p_via p)
+  && (match rev (p_via p) with
+      | x :: _ => match last_token (constraint_text x) with
+                  | (h, t) => negb (nonempty h && url_like (fst (fst (partition_char "#"%char t)))) end
+      | [] => true end)
+  && (match p_url p, rev (p_via p) with
+      | Some u, x :: _ =>
+          if o_urls o then negb (containsb l_src_sep (constraint_text x ++ w_cmt_single ++ u))
+                           && negb (last_ok (fun c => mem_ascii c l_src_sep) u)
+          else true
+      | _, _ => true end)
   && match o_annot o with
      | Some _ => true
-     | None => negb (startswith (w_cmt_single ++ explanation false (p_via p) ++ nl) l_via_sp)
+     | None => negb (startswith (one_line_comment o p ++ l_via_pad) l_via_word)
                && negb (prefixb "[" (explanation false (p_via p)))
      end.
 Definition wf_single (o : opts) (v : view) : bool :=
   negb (o_multi o) && opts_ok o && forallb pin_ok v && forallb (annot_pin_ok o) v && names_sorted v
   && forallb (single_pin_ok o) v.
+
+(* whatever layout the option set leads to (explicit, or chosen by the tool) *)
+Definition wf_auto (o : opts) (v : view) : bool :=
+  wf_view o v && (o_multi o || forallb (single_pin_ok o) v).
